@@ -176,3 +176,40 @@ Definition buf_abs (d : Z) (s : bstate) : list Z :=
   if d =? 0 then []
   else if d =? 1 then (if blevel s =? 1 then [rdata s] else [])
   else (if rrdy s then [rdata s] else []) ++ core_abs (d - 1) (inner s).
+
+(* ---------------------------------------------------------------- synchronous reset of the domain
+   `rst` of the (synchronous-reset) domain is sampled at the same edge as everything else: the outputs of
+   the cycle are unaffected; at the edge every register that is not reset_less takes its init value,
+   overriding the statements (sim/_pyrtl.py: `if rst: next_x = init` after the statements).  The memory is
+   not a register: a write accepted in that cycle still lands.  The data register of the sync read port is
+   not reset either (it keeps its value, or captures the row when the port is enabled), and
+   SyncFIFOBuffered(depth=1) keeps its reset_less r_data register. *)
+Definition core_reset (c : core) : core := Core 0 0 0 (rows c).
+Definition buf_reset (s : bstate) : bstate := BState (core_reset (inner s)) (rdata s) false 0.
+
+Definition sync_step_r (w d : Z) (c : core) (ir : inp * bool) : core * out :=
+  let r := sync_step w d c (fst ir) in
+  (if snd ir then core_reset (fst r) else fst r, snd r).
+Definition buf_step_r (w d : Z) (s : bstate) (ir : inp * bool) : bstate * out :=
+  let r := buf_step w d s (fst ir) in
+  (if snd ir then buf_reset (fst r) else fst r, snd r).
+
+Section RunR.
+  Context {S : Type}.
+  Variable step : S -> inp * bool -> S * out.
+  Fixpoint run_r (s : S) (ins : list (inp * bool)) : list out :=
+    match ins with
+    | [] => []
+    | i :: r => snd (step s i) :: run_r (fst (step s i)) r
+    end.
+  Fixpoint reach_r (s : S) (ins : list (inp * bool)) : S :=
+    match ins with
+    | [] => s
+    | i :: r => reach_r (fst (step s i)) r
+    end.
+End RunR.
+
+Definition sync_run_r (w d : Z) := run_r (sync_step_r w d) (core_init d).
+Definition buf_run_r (w d : Z) := run_r (buf_step_r w d) (buf_init d).
+Definition sync_reach_r (w d : Z) := reach_r (sync_step_r w d) (core_init d).
+Definition buf_reach_r (w d : Z) := reach_r (buf_step_r w d) (buf_init d).
